@@ -44,14 +44,22 @@ def structures(ctx, tag, B):
 def run_tree_utils(R, B):
     from jumanji import tree_utils as T
     ctx = Ctx()
-    R.bound(batch=B, index="symbolic int32 in [0, B)", leaves="symbolic, shapes () .. (2,1)")
+    R.bound(batch=B, index="symbolic int32 in [-B, B) (negative = counted from the back, as for any array index)", leaves="symbolic, shapes () .. (2,1)")
     for sname, trees in structures(ctx, f"B{B}", B):
         R.nvars += sum(S.nvars(t) for t in trees)
-        i = ctx.fresh_arr("i", (), np.int32, 0, B - 1)
+        i = ctx.fresh_arr("i", (), np.int32, -B, B - 1)
         iz = S.scalar(i)
         A = list(ctx.assumptions)
         # slice(transpose(ts), i) == ts[i]
-        out = S.call(ctx, lambda ts, k: T.tree_slice(T.tree_transpose(ts), k), trees, i, R=R, name="tree_slice(tree_transpose(.), i)")
+        try:
+            out = S.call(ctx, lambda ts, k: T.tree_slice(T.tree_transpose(ts), k), trees, i, R=R, name="tree_slice(tree_transpose(.), i)")
+            batched = S.call(ctx, T.tree_transpose, trees, R=R, name="tree_transpose")
+            elem = jax.tree_util.tree_map(lambda x: ctx.fresh_arr("e", x.shape, x.dtype), trees[0], is_leaf=S.is_sv)
+            upd = S.call(ctx, T.tree_add_element, batched, i, elem, R=R, name="tree_add_element")
+        except Exception as e:  # noqa  (the helpers must accept every list of identically structured trees)
+            R.structural(f"[{sname}] tree_transpose / tree_slice / tree_add_element accept a list of {B} identically structured trees", False,
+                         {"structure": sname, "batch": B, "error": f"{type(e).__name__}: {str(e)[:200]}"})
+            continue
         same_struct = jax.tree_util.tree_structure(jax.tree_util.tree_map(lambda x: 0, out, is_leaf=S.is_sv)) == \
             jax.tree_util.tree_structure(jax.tree_util.tree_map(lambda x: 0, trees[0], is_leaf=S.is_sv))
         same_types = all((a.dtype, tuple(a.shape)) == (b.dtype, tuple(b.shape)) for a, b in zip(S.leaves(out), S.leaves(trees[0])))
@@ -64,12 +72,9 @@ def run_tree_utils(R, B):
             from checks.wrap_common import diff_fields
             d = diff_fields(got, ts[k])
             return bool(d), {"structure": sname, "batch": B, "i": k, "differs": d}
-        for k in range(B):
-            R.prove(f"[{sname}] i={k}: slice(transpose(ts), i) == ts[i]", A + [iz == k] if J.is_sym(iz) else A, S.tree_eq(out, trees[k]), replay=replay_slice)
+        for k in range(-B, B):
+            R.prove(f"[{sname}] i={k}: slice(transpose(ts), i) == ts[i]", A + [iz == k] if J.is_sym(iz) else A, S.tree_eq(out, trees[k % B]), replay=replay_slice)
         # add_element
-        batched = S.call(ctx, T.tree_transpose, trees, R=R, name="tree_transpose")
-        elem = jax.tree_util.tree_map(lambda x: ctx.fresh_arr("e", x.shape, x.dtype), trees[0], is_leaf=S.is_sv)
-        upd = S.call(ctx, T.tree_add_element, batched, i, elem, R=R, name="tree_add_element")
         st2 = all((a.dtype, tuple(a.shape)) == (b.dtype, tuple(b.shape)) for a, b in zip(S.leaves(upd), S.leaves(batched)))
         R.structural(f"[{sname}] add_element preserves structure, shapes and dtypes", st2, {"batch": B})
 
@@ -81,15 +86,15 @@ def run_tree_utils(R, B):
             from checks.wrap_common import diff_fields
             bad = []
             for j in range(B):
-                d = diff_fields(T.tree_slice(got, j), e if j == k else ts[j])
+                d = diff_fields(T.tree_slice(got, j), e if j == k % B else ts[j])
                 if d:
                     bad.append({"index": j, "differs": d})
             return bool(bad), {"structure": sname, "batch": B, "i": k, "wrong": bad}
-        for k in range(B):
+        for k in range(-B, B):
             Ak = A + ([iz == k] if J.is_sym(iz) else [])
-            R.prove(f"[{sname}] i={k}: add_element(t, i, e)[i] == e", Ak, S.tree_eq(S.lane(upd, k), elem), replay=replay_add)
+            R.prove(f"[{sname}] i={k}: add_element(t, i, e)[i] == e", Ak, S.tree_eq(S.lane(upd, k % B), elem), replay=replay_add)
             for j in range(B):
-                if j != k:
+                if j != k % B:
                     R.prove(f"[{sname}] i={k}: add_element(t, i, e)[{j}] == t[{j}]", Ak, S.tree_eq(S.lane(upd, j), trees[j]), replay=replay_add)
     R.sample({"batch": B, "structures": [n for n, _ in structures(Ctx(), "x", 1)]})
 
@@ -193,6 +198,38 @@ def run_equality(R, variant):
             R.validated += 1
         T.np = P.NpShim()
         R.structural("shim fidelity: shimmed == real is_equal_pytree on 40 random concrete trees", bad == 0, {"mismatches": bad})
+        if variant == "mismatch":
+            # leaves of DIFFERENT shape are different whatever their values, also when the shapes would broadcast (ones(1) vs ones(4),
+            # scalar vs vector, (1,3) vs (2,3), empty vs non-empty): the three helpers must agree on that.  Real numpy, concrete leaves.
+            T.np = saved
+            wrong = []
+            for la, lb in ((np.ones(1), np.ones(4)), (np.float32(1.0), np.ones(3, np.float32)), (np.ones((1, 3)), np.ones((2, 3))), (np.zeros((0,)), np.zeros((2,))),
+                           (np.ones((2, 1), np.int32), np.ones((1, 2), np.int32))):
+                for a_, b_ in (({"x": la, "y": [np.int8(1)]}, {"x": lb, "y": [np.int8(1)]}), ({"x": lb, "y": [np.int8(1)]}, {"x": la, "y": [np.int8(1)]})):
+                    try:
+                        eq = T.is_equal_pytree(a_, b_)
+                    except Exception as e:  # noqa
+                        eq = f"raised {type(e).__name__}"
+                    try:
+                        T.assert_trees_are_different(a_, b_)
+                        dif = "returns"
+                    except AssertionError:
+                        dif = "AssertionError"
+                    except Exception as e:  # noqa
+                        dif = f"raised {type(e).__name__}"
+                    try:
+                        T.assert_trees_are_equal(a_, b_)
+                        same = "returns"
+                    except AssertionError:
+                        same = "AssertionError"
+                    except Exception as e:  # noqa
+                        same = f"raised {type(e).__name__}"
+                    if eq is not False or dif != "returns" or same != "AssertionError":
+                        wrong.append({"shapes": [list(np.shape(a_["x"])), list(np.shape(b_["x"]))], "is_equal_pytree": str(eq), "assert_trees_are_different": dif, "assert_trees_are_equal": same})
+                    R.validated += 3
+            T.np = P.NpShim()
+            R.structural("leaves of different (also broadcast-compatible) shapes: is_equal_pytree False, assert_trees_are_different returns, assert_trees_are_equal raises", not wrong,
+                         {"disagreements": wrong[:4]})
         R.sample({"variant": variant, "paths": "see obligations"})
     finally:
         T.np = saved
